@@ -252,6 +252,27 @@ def run(ctx):
         print("NOTE beyond-property: %d deviations from HostDiscovery.tla, e.g. %s" % (len(dnotes), dnotes[0][:400]))
     ctx.notes["host_discovery"] = {"behaviours_replayed": dr["behaviours"], "phases": dr["steps"], "probes": dr["probes"],
                                    "deviations_outside_C16": dnotes[:20]}
+    # a membership change announced at the head of a steady stream of further announcements (a rolling restart), with
+    # topology queries that take a while: Topology.tla's PEvent leaves a pending refresh alone and nothing an
+    # announcement does keeps the refresh from completing, so the change is followed within a few refresh windows of
+    # ITS announcement (window 100 ms; the budget is 15 windows, the stream lasts 30)
+    sout = ctx.path("stream_result.json")
+    streams = []
+    for pd in (("60", "20") if not t else ("60", "20", "5", "150")):
+        ctx.drv(["stream", "-out", sout, "-window", "100", "-peersdelay", pd, "-spacing", "25", "-length", "3000"], timeout=300)
+        sr = json.load(open(sout))
+        streams.append(sr)
+        for field, what in (("added_routed_after_ms", "a node that joined is not routed to"), ("removed_unrouted_after_ms", "a node that was unlisted keeps receiving requests")):
+            v = sr[field]
+            if field == "removed_unrouted_after_ms" and sr.get("note"):
+                continue
+            if v < 0 or v > 1500:
+                ctx.violation("C16:event-stream:%s" % field.replace("_after_ms", ""),
+                              "%s within 15 refresh windows of its announcement while other nodes keep announcing themselves every %s ms and a read of system.peers "
+                              "takes %s ms (%s; control connection lost during the stream: %s)" % (
+                                  what, sr["spacing_ms"], sr["peers_delay_ms"], "never during the 3 s stream" if v < 0 else "%d ms" % v,
+                                  bool(sr["control_connections_lost_during_streams"])), replay=sr)
+    ctx.notes["event_streams"] = streams
     # Backoff table
     bres = ctx.tlc_must_pass("Backoff", "Backoff.cfg", workers=2, timeout=600, name="backoff")
     brows = rows(bres.output, "ROW")
